@@ -33,9 +33,10 @@ cOpsMut == {"clone","drop","reserve","shrink_to","push_str","pop","clear","trunc
 cOpsIdx == {"truncate","remove","insert_str"}
 cSeedsEmpty == { <<>> }
 \* raw byte sequences: valid, truncated lead, bad continuation, overlong, surrogate, long runs crossing the inline limit
-cRaw == { <<97, 255, 98>>, <<240, 144, 128>>, <<226, 130>> \o A15 \o <<237, 160, 128, 99>>, A17 \o <<192, 175, 244, 144>>, <<>>, G4 \o A15 }
+\* (the last two: 15 / 16 bytes whose lossy text is exactly 16 bytes: a truncated 3- / 4-byte char at the end / at the front)
+cRaw == { <<49,50,51,52,53,54,55,56,57,48,97,98,99,226,130>>, <<240,159,152,49,50,51,52,53,54,55,56,57,48,97,98,99>>, <<97, 255, 98>>, <<240, 144, 128>>, <<226, 130>> \o A15 \o <<237, 160, 128, 99>>, A17 \o <<192, 175, 244, 144>>, <<>>, G4 \o A15 }
 cRawNone == {}
-cU16 == { <<97, 55296, 98>>, <<55357, 56832, 97>>, <<56320>>, <<>>, [i \in 1..18 |-> IF i = 9 THEN 55296 ELSE 8364] }
+cU16 == { [i \in 1..16 |-> 97], [i \in 1..5 |-> 8364] \o <<97>>, <<97, 55296, 98>>, <<55357, 56832, 97>>, <<56320>>, <<>>, [i \in 1..18 |-> IF i = 9 THEN 55296 ELSE 8364] }
 cU16None == {}
 cOpsSim == cOpsAll \cup {"compare", "from_utf8_lossy", "from_utf16"}
 cCapsSim == {0, 1, 15, 16, 17, 30, 64, BIG, TOOLONG}
